@@ -45,6 +45,7 @@ func init() {
 			c09ExplicitExpiryWins(r)
 			customConfigOverrides(r)
 			c09SubMillisecondKept(r)
+			c15ParserConsumesAllArguments(r)
 			c09IncrByFloatKeepsExpiry(r)
 			c09ScanSkipsExpired(r)
 			c10TTLUpdateDoesNotEvict(r)
